@@ -172,6 +172,14 @@ Proof.
   - exact R.
   - eapply res_frame; [exact R|..]; simp_st; auto.
   - eapply res_frame; [exact R|..]; simp_st; auto.
+  - destruct (give_early (users s)) as [us|] eqn:G.
+    + destruct (give_early_spec _ _ G) as (j & u & Hj & Hu & ->). frames.
+      eapply (res_set_user s _ j u (set_upc u UWait1) R Hj); simp_st; rew_hyps; auto.
+      * unfold is_ready; simp_st; rew_hyps; auto.
+      * cbn [set_upc uflag]. intros Q. pose proof (f3_ok s R j u Hj Q). rdy.
+      * pose proof (f2_ok s R j u Hj) as SK. unfold seen_ok in *. cbn [set_upc ukd upcf uruns useen]. rewrite Hu in SK.
+        destruct (ukd u); exact SK.
+    + eapply (res_frame s); try exact R; simp_st; auto.
 Qed.
 
 Ltac seen_tac Hj R IA :=
